@@ -192,6 +192,12 @@ where
                     }
                     first_maximal = false;
                     if arg_is_missing {
+                        // only the refusals witnessed by the extension handed out are recorded:
+                        // a cached refusal is returned together with this extension as its certificate
+                        computer
+                            .current()
+                            .iter()
+                            .for_each(|a| missing_in_one_maximal[a.id()] = false);
                         break (
                             false,
                             vec![],
